@@ -206,7 +206,7 @@ def entries_from_json(js):
     for e in js:
         t = e[0]
         if t == "d":
-            out.append(("d", [(k, float(v) if not isinstance(v, str) else float(v)) for k, v in e[1]]))
+            out.append(("d", [(k, v if (isinstance(v, int) and not isinstance(v, bool)) else float(v)) for k, v in e[1]]))
         elif t == "a":
             out.append(("a", e[1], tuple(e[2]), _vals(e[1], e[3])))
         elif t == "l":
@@ -335,6 +335,7 @@ class Stack:
         VObj.pDefs = pDefs
         self.VObj, self.Database = VObj, Database
         self.n = 0
+        self.last_dtype = None
 
     def roundtrip(self, h5file, values):
         """-> (outcome, strategy, readback list | None, error text)"""
@@ -352,6 +353,7 @@ class Stack:
         if "p" not in grp:
             return "skip", None, None, ""
         ds = grp["p"]
+        self.last_dtype = ds.dtype
         at = dict(ds.attrs)
         if not at.get("specialFormatting", False):
             strat = "plain:[" + ",".join(map(str, ds.shape)) + "]"
@@ -709,6 +711,124 @@ def gen_text(rng):
     if form == "scalars+none":
         out.insert(rng.randrange(len(out) + 1), ("n",))
     return out
+
+
+# --------------------------------------------------------------------------- numeric kinds drawn per object (C05-c)
+NUM_KINDS = [(False, "b"), (False, "i64"), (True, "i8"), (True, "i32"), (True, "u8"), (True, "u16"), (True, "i64"),
+             (False, "f64"), (True, "f32"), (True, "f64")]
+FRACTIONS = [0.5, 1.5, 2.25, -0.75, 0.125, 3.0, -2.5, 7.875]
+
+
+def _rank(dt):
+    return 0 if dt == "b" else 2 if dt in ("f32", "f64") else 1
+
+
+def kind_leaf(rng, dt):
+    if dt == "b":
+        return rng.random() < 0.5
+    if dt in ("f32", "f64"):
+        return rng.choice(FRACTIONS)          # exactly representable in float32 as well
+    return rng.randint(0 if dt.startswith("u") else -9, 9)
+
+
+def _kind_entry(rng, np_, dt, shape):
+    """one object's value of numeric kind dt: python list (python kinds) or numpy array (numpy kinds) of that shape"""
+    n = int(np.prod(shape)) if shape else 1
+    vals = [kind_leaf(rng, dt) for _ in range(n)]
+    if not shape:
+        return ("s", np_, dt, vals[0])
+    if np_ or len(shape) > 1:
+        return ("a", dt, tuple(shape), vals)
+    return ("l", False, dt, vals)
+
+
+def gen_kinds(rng):
+    """every container shape the packer accepts - scalars, fixed-shape, ragged (1-d, 2-d, with scalars, with None and
+    empty entries), dict of numbers - with the NUMERIC KIND OF EACH OBJECT'S ENTRY DRAWN INDEPENDENTLY (bool, python int,
+    numpy ints of several widths, python float, float32/64); mostly with the narrowest kind first (an integer-typed first
+    entry, non-integral reals later), sometimes reversed or shuffled. Oracle only: values must read back numerically
+    exact, shapes and None positions unchanged (the KIND may be promoted: listed finding mixed-kinds-promoted)."""
+    form = rng.choice(["ragged", "ragged", "ragged+none", "fixed", "fixed2d", "ragged2d", "scalars", "scalar+ragged", "dict", "ragged+none"])
+    n = rng.randint(2, 6)
+    kinds = [rng.choice(NUM_KINDS) for _ in range(n)]
+    if all(_rank(k[1]) == _rank(kinds[0][1]) for k in kinds):
+        kinds[-1] = rng.choice([(False, "f64"), (True, "f32")]) if _rank(kinds[0][1]) < 2 else (False, "i64")
+    x = rng.random()
+    if x < 0.7:
+        kinds.sort(key=lambda k: _rank(k[1]))                 # narrowest first
+    elif x < 0.85:
+        kinds.sort(key=lambda k: -_rank(k[1]))
+    ents = []
+    if form == "dict":
+        keys = ["a", "b", "c"]
+        for np_, dt in kinds:
+            ks = rng.sample(keys, rng.randint(1, 3))
+            ents.append(("d", [(k, kind_leaf(rng, dt)) for k in ks]))
+        return ents
+    m = rng.randint(1, 3)
+    for i, (np_, dt) in enumerate(kinds):
+        if form == "scalars":
+            shape = ()
+        elif form == "fixed":
+            shape = (m,)
+        elif form == "fixed2d":
+            shape = (m, 2)
+        elif form == "ragged2d":
+            shape = (1 + (i + m) % 3, 2)
+        elif form == "scalar+ragged":
+            shape = () if rng.random() < 0.4 else (1 + (i + m) % 3,)
+        else:
+            shape = (1 + (i + m) % 4,)
+        ents.append(_kind_entry(rng, np_, dt, shape))
+    if form == "ragged+none":
+        for _ in range(rng.randint(1, 2)):
+            ents.insert(rng.randrange(0 if rng.random() < 0.3 else 1, len(ents) + 1), ("n",) if rng.random() < 0.7 else ("l", False, "i64", []))
+    return ents
+
+
+def _numeric(v):
+    """value -> None (unset / empty) | ('dict', {key: number}) | (shape, [numbers])  for the numeric comparison"""
+    if v is None:
+        return None
+    if isinstance(v, dict):
+        return ("dict", {str(k): (None if _is_nan(x) else float(x)) for k, x in v.items() if not _is_nan(x)})
+    a = np.asarray(v)
+    if a.dtype.kind == "O":
+        return ("object", repr(v))
+    if a.size == 0:
+        return None
+    if a.size == 1 and a.dtype.kind == "f" and np.isnan(a.ravel()[0]):
+        return None
+    shape = tuple(a.shape)
+    if shape in ((), (1,)):
+        shape = ()                                # a scalar and a one-element array are the same value (JaggedArray)
+    return (shape, [float(x) for x in a.ravel().tolist()])
+
+
+def numeric_mismatch(values, back):
+    """index of the first object whose read-back value is not NUMERICALLY the original (shape, positions of unset
+    entries, every number exactly; NaN = NaN), None when all agree"""
+    if len(values) != len(back):
+        return 0
+    for i, (o, b) in enumerate(zip(values, back)):
+        x, y = _numeric(o), _numeric(b)
+        if x is None or y is None:
+            if x is not y:
+                return i
+            continue
+        if x[0] != y[0]:
+            return i
+        if x[0] == "dict":
+            if x[1] != y[1]:
+                return i
+            continue
+        if len(x[1]) != len(y[1]) or any(not (p == q or (p != p and q != q)) for p, q in zip(x[1], y[1])):
+            return i
+    return None
+
+
+DT_OF_NUMPY = {"bool": "b", "int8": "i8", "int16": "i16", "int32": "i32", "int64": "i64", "uint8": "u8", "uint16": "u16",
+               "uint32": "u32", "uint64": "u64", "float32": "f32", "float64": "f64"}
 
 
 def in_model_domain(ents):
@@ -1210,6 +1330,50 @@ def run_values(ctx, h5file):
         if f is not None:
             report(ctx, f.key, f.clause, f.case, f.observed, f.expected)
         ctx.case(wire(ents), nontrivial=True)
+    # C05-c: numeric kind of each object's entry drawn independently, narrowest first; numerically exact read-back, and
+    # (correspondence) the dtype of the stored dataset = the model's promotion of the entries' dtypes
+    kreq, kimpl, kcases = [], [], []
+    directed = [
+        [("l", False, "i64", [1, 2, 3]), ("l", False, "f64", [0.5, 1.5]), ("n",), ("l", False, "f64", [2.25])],
+        [("l", False, "f64", [0.5, 1.5]), ("l", False, "i64", [1, 2, 3]), ("n",)],
+        [("s", False, "i64", 3), ("l", False, "f64", [0.5, 1.5])],
+        [("l", False, "b", [True, False]), ("l", False, "i64", [4]), ("l", False, "f64", [2.5, 0.5, 1.5])],
+        [("a", "i64", (1, 2), [1, 2]), ("a", "f64", (2, 2), [0.5, 1.5, 2.25, -0.75]), ("n",)],
+        [("a", "i8", (2,), [1, 2]), ("a", "f32", (3,), [0.5, 1.5, 2.25])],
+        [("l", False, "i64", [1, 2]), ("l", False, "f64", [0.5, 1.5])],                       # fixed shape, int first
+        [("d", [("a", 1), ("b", 2)]), ("d", [("a", 0.5)])],
+        # kept directed cases: a transposed / Fortran-ordered 2-d entry in the jagged path (layout derived from the entry)
+        [("a", "f64", (2, 3), [1.0, 2.0, 3.0, 4.0, 5.0, 6.0]), ("a", "f64", (3, 2), [1.5, 2.5, 3.5, 4.5, 5.5, 6.5]), ("n",)],
+        [("a", "i64", (3, 2), [1, 2, 3, 4, 5, 6]), ("a", "i64", (2, 2), [7, 8, 9, 10])],
+    ]
+    for i in range(ctx.pick(700, 8000) + len(directed)):
+        ents = directed[i] if i < len(directed) else gen_kinds(rng)
+        if not ents:
+            continue
+        values = [to_py(e) for e in ents]
+        res = stack.roundtrip(h5file, values)
+        case = {"entries": entries_json(ents)}
+        if res[0] == "ok":
+            bad = numeric_mismatch(values, res[2])
+            if bad is not None:
+                report(ctx, "value-changed-in-mixed-kind-column", "accepted => same values (a promoted numeric KIND is the listed "
+                       "finding; the NUMBER must be the one that was stored), shapes and unset positions", case,
+                       observed={"index": bad, "read": repr(res[2][bad])[:200]}, expected=repr(values[bad])[:200])
+                ctx.case(("kinds", repr(ents)), nontrivial=True)
+                continue
+        f = oracle(ctx, ents, values, res, "numeric kind per object (oracle only)")
+        if f is not None:
+            report(ctx, f.key, f.clause, f.case, f.observed, f.expected)
+        ctx.case(("kinds", repr(ents)), nontrivial=True)
+        # dtype of the stored dataset vs the model (writeParam on the same entries): jagged and plain strategies
+        if res[0] == "ok" and res[1] and res[1].split(":")[0] in ("jagged", "plain") and not any(e[0] == "d" for e in ents):
+            kreq.append("storeddt " + wire(ents))
+            kimpl.append(DT_OF_NUMPY.get(str(stack.last_dtype), str(stack.last_dtype)))
+            kcases.append(case)
+    if kreq:
+        kmodel = lean_run("Pack", kreq)
+        ctx.compare("Model/Pack.lean dtype of the stored dataset (promoteAll) vs the real dataset", kcases, kmodel, kimpl)
+        ctx.count("stored-dtype correspondence cases (numeric kind per object)", len(kreq))
     for i in range(ctx.pick(400, 5000)):
         ents = gen_text(rng)
         if not ents:
